@@ -144,6 +144,7 @@ def run_jobs(jobs: list[Job], known: dict[str, list[str]], workdir: str) -> None
                         k.proc.kill()
                         k.proc.wait()
                 running.clear()
+                break
             print(
                 f"  [{r.get('status')}] {j.describe()} paths={r.get('iterations')} "
                 f"confirmed={r.get('confirmed_paths')} exhausted={r.get('exhausted')} "
